@@ -93,6 +93,16 @@ def run(rng, tier, model_ok):
             q = rng.choice(["1 +", "1 m + 1 s", "(1", "2 * nosuchthing", "1 / 0", "round(1, 2, 3)", "1 m to s", "3 °C^2 to K^2", "1 )", "foo bar baz"])
         if q and not q.startswith("-") and "\n" not in q:
             queries.append((q, rng.random() < 0.4))
+    # values around one and minus one with units that have a plural form, alone and next to other units, in both modes
+    plural_units = ["decade", "century", "millenium", "gallon", "pint", "quart", "cup", "gill", "ton", "acre", "rood", "perch", "hectare", "m", "kg"]
+    for u in plural_units:
+        for v in ["1", "0 - 1", "2", "0", "0.5", "0 - 2", "1.0", "3 - 2", "1 - 2", "100 %"]:
+            for ex in (False, True):
+                queries.append(("%s %s" % (v, u) if " " not in v else "%s %s" % (v, u), ex))
+        queries.append(("1 %s/s" % u, False))
+        queries.append(("0 - 1 %s/s" % u, True))
+        queries.append(("1 / 1 %s" % u, False))
+        queries.append(("2 m*%s" % u, False))
     qs = [q for q, _ in queries]
     lib = vlib.run_impl(["Q " + vlib.hx(q) for q in qs])
     # decimal renderings through the library's own Display with the program's spec
